@@ -43,7 +43,7 @@ def run(ctx):
                 configs.append({"iface": iface, "shuffle": shuffle, "fp": fp, "repeat": False})
     configs += [{"iface": i, "shuffle": s, "fp": 2, "repeat": False, "process_record": True}
                 for i in ifaces for s in (0, 2)]
-    R.run_grid(ctx, "C02", "bag", configs)
+    R.run_grid(ctx, "C02", "bag", configs, lockstep=ifaces)
 
 
 def replay(ctx, body):
